@@ -1257,6 +1257,8 @@ class Frame(registering.StoriedRegistrar):
 
         frame = self.under #trace down
         while(frame): #while not below bottom
+            if frame in outline: #primary unders loop back into outline
+                raise excepting.ResolveError("Outline unders create loop", self.name, frame.name)
             outline.append(frame)
             frame = frame.under
 
